@@ -235,6 +235,24 @@ def x86_cases(f, mode, has_evex_sibling=True):
     if name in ("vpternlogd", "vpternlogq") and base is not None and base[-1][0] == "i":
         # imm8 0x11 (the default) makes the result independent of the destination; 0xCA = A ? B : C depends on it
         out.append(mk(list(base[:-1]) + [("i", 0xCA)], "imm=0xca", opt))
+    # register-id alphabet of the features clause: the VEX / EVEX decision depends on the HIGHEST vector register id.
+    # Every vector operand position in turn gets id 16 (first EVEX-only id) and 31 while the others stay below 16 (EVEX
+    # forms), and id 15 (last VEX id) with no option at all (VEX forms); a VSIB index register gets id 16 as well.
+    if mode == 64 and has_evex_sibling and f["prefix"] in ("VEX", "EVEX"):
+        low = {j: v for j, v in ids.items() if f["operands"][j]["consecutive"]}
+        for j, o in enumerate(f["operands"]):
+            a = _pick(o, False)
+            if a and a[0] == "reg" and a[1] in ("xmm", "ymm", "zmm") and not o["implicit"]:
+                for vid in ((16, 31) if f["prefix"] == "EVEX" else (15,)):
+                    d = dict(low)
+                    d[j] = vid
+                    out.append(mk(full_operands(f, mode, ids=d), "v%d@%d" % (vid, j), 0))
+            if o["vsibReg"] and f["prefix"] == "EVEX":
+                ops = full_operands(f, mode, ids=low)
+                if ops is not None and ops[j][0] == "m" and ops[j][1].index is not None:
+                    ops = list(ops)
+                    ops[j] = ("m", ops[j][1].replace(index=(ops[j][1].index[0], 16)))
+                    out.append(mk(ops, "vi16@%d" % j, 0, ("k", 1) if f["kmask"] else None))
     return [c for c in out if c is not None]
 
 
@@ -421,8 +439,20 @@ def judge_operands(cc, res):
                     viol.append(("missing-write:op%d.base" % j, "%s: string instruction advances %s but kMemBaseWrite is not "
                                  "reported [%r]" % (loc, o["memRegOnly"], info)))
             continue
-        # ---- register operand: byte masks of general-purpose writes
+        # ---- vector register written with zero extension (db `W:` / `X:`): every byte of the operand's own width changes
+        # (the part the db bit range does not name is zeroed), so write|extend mask must cover the whole operand.
+        # Under-reporting only; what is reported above the operand width is not judged here.
         kind = op[1]
+        if kind in ("xmm", "ymm", "zmm") and need_w and o["zext"]:
+            st["vector_write_checks"] += 1
+            width = lsb(X.KIND_BITS[kind] // 8)
+            covered = (info.wmask | info.emask) & width
+            if covered != width:
+                viol.append(("byte-mask", "%s (%s): the db declares a zero-extending write (%s:%s, bit range [%d:%d]) - all %d bytes of the "
+                             "register operand change - but write mask %#x | extend mask %#x leave bytes %#x unreported" % (
+                                 loc, X.reg_name(kind, op[2]), _acc(o), o["data"], o["rwxIndex"] + o["rwxWidth"] - 1, o["rwxIndex"],
+                                 X.KIND_BITS[kind] // 8, info.wmask, info.emask, width & ~covered)))
+        # ---- register operand: byte masks of general-purpose writes
         s = gp_size(kind)
         if s is None or not need_w:
             continue
